@@ -74,7 +74,10 @@ inline void on_terminate() {
 }
 inline void install_handlers() {
   std::set_terminate(on_terminate);
-  for (int s : {SIGSEGV, SIGABRT, SIGBUS, SIGFPE, SIGILL}) signal(s, on_signal);
+  for (int s : {SIGSEGV, SIGABRT, SIGBUS, SIGFPE, SIGILL, SIGALRM, SIGTERM}) signal(s, on_signal);
+  // non-termination: the driver sets VERIF_ALARM a little below its own timeout, so that the trace
+  // still ends with a `crashed` line that names the call in flight instead of being lost with the buffer
+  if (const char* a = getenv("VERIF_ALARM")) alarm((unsigned)atoi(a));
 }
 
 // an argument copied to an exact-size heap block (no SSO slack, so that ASan /
